@@ -7,9 +7,11 @@ d/dr spectral_rad_cdf = spectral_rad_pdf (mechanical differentiation, T4 table),
 ppf(cdf(r)) = r and cdf(ppf(u)) = u, and _has_cdf/_has_ppf agree with the dims for which a value is
 returned; the truncated-power-law densities are the documented superposition of their single-scale
 densities.
-NOT decided (residue): that the reported density IS the d-dimensional Fourier transform of the
-correlation (improper integrals of special functions; default path is a numerical Hankel
-transform without contract); cdf(inf) = 1.
+Added after seeding round 3: the analytic overrides equal the tabulated closed-form transforms of
+their documented correlations (table at the end of this file), and the numerical default path is a
+Hankel transform of the model's correlation in the package's Fourier convention for every history.
+NOT decided (residue): that the tabulated pairs ARE Fourier pairs (improper integrals of special
+functions: trusted literature table T8); accuracy of the numerical Hankel transform; cdf(inf) = 1.
 """
 import warnings
 
@@ -239,3 +241,180 @@ def numeric_spectrum_dim(ctx, cls, dim, dim2):
     ctx.ensure("hankel-dimension=model-dimension", mod._sft.ndim == mod.dim == dim2)
     ctx.ensure("density=density-of-fresh-model", bool(np.allclose(a, b, rtol=1e-9, atol=1e-12)))
     ctx.ensure("radial-pdf=radial-pdf-of-fresh-model", bool(np.allclose(pa, pb, rtol=1e-9, atol=1e-12)))
+
+
+# --- analytic spectral densities = the Fourier transform of the documented correlation (tabulated pairs) ---
+# Convention of the package: S(k) = (2 pi)^-d int rho(r) exp(-i k.r) d^d r.  Derivations (T8: classical
+# Fourier pairs, re-derived for this file, not copied from the code):
+#   Gaussian    rho = exp(-(r/l)^2)                    ->  (l / (2 sqrt(pi)))^d exp(-(k l / 2)^2)
+#   Exponential rho = exp(-r/l)                        ->  l^d Gamma((d+1)/2) / (pi (1 + (k l)^2))^((d+1)/2)
+#   Matern      rho = 2^(1-nu)/Gamma(nu) (a r)^nu K_nu(a r), a = sqrt(nu)/l
+#                                                      ->  (l/sqrt(pi))^d Gamma(nu+d/2)/Gamma(nu) nu^(-d/2) (1 + (k l)^2/nu)^-(nu+d/2)
+#   Integral    rho = nu/2 E_(1+nu/2)((r/l)^2): superposition of Gaussians exp(-t (r/l)^2), t >= 1, weight t^-(1+nu/2)
+#                                                      ->  nu/2 (l/(2 sqrt(pi)))^d gamma(s, x)/x^s, s = (nu+d)/2, x = (k l/2)^2;
+#                                                          k = 0: (l/(2 sqrt(pi)))^d nu/(nu+d)
+#   HyperSpherical rho = self-convolution of d-balls of diameter l (normalised)
+#                                                      ->  Gamma(d/2+1) J_(d/2)(k l/2)^2 / (pi^(d/2) k^d);  k = 0: (l/4)^d/(Gamma(d/2+1) pi^(d/2))
+#   JBessel     rho = Gamma(nu+1) J_nu(r/l)/(r/(2l))^nu (Sonine)
+#                                                      ->  (l/sqrt(pi))^d Gamma(nu+1)/Gamma(nu-d/2+1) (1-(k l)^2)^(nu-d/2) for k < 1/l, else 0
+# with l = len_scale / rescale.  Documented deviations kept as they are stated in the code comments: Matern for
+# nu > 20 and Integral for nu > 50 use the stated Gaussian-limit approximation; JBessel caps 1/Gamma at 100.
+def _G(ctx, x):
+    """Gamma at a concrete argument, exact at (half-)integers in symbolic runs (as the engine does for the code)"""
+    if ctx.mode == "sym":
+        g = symrun._gamma_half_integer(float(x))
+        if g is not None:
+            return g
+    import math
+    return math.gamma(float(x))
+
+
+def _pw(ctx, b, e):
+    """b ** e for a concrete exponent the way numpy evaluates it on symbolic bases"""
+    return b ** e
+
+
+FT_PARAMS = [{"cls": c, "dim": d, "k": kk} for c in ("Gaussian", "Exponential", "Matern", "Integral", "HyperSpherical", "JBessel")
+             for d in (1, 2, 3) for kk in ("positive", "zero")]
+
+
+@contract(P, "models.spectral_density/tabulated-Fourier-pair-of-the-documented-correlation", params=FT_PARAMS,
+          functions=["covmodel/models.py:<cls>.spectral_density"], timeout=60, nsamples=4, search=60)
+def density_table(ctx, cls, dim, k):
+    m = ctx.m
+    install_inc_gamma_stub()
+    l, s = ctx.real("len", lo=0.5, hi=2.0), ctx.real("resc", lo=0.5, hi=2.0)
+    ctx.require(ctx.And(ctx.gt(l, 0), ctx.gt(s, 0)))
+    kw = {}
+    nu = None
+    if cls == "Matern":
+        nu = ctx.real("nu", lo=0.3, hi=29.5)
+        ctx.require(ctx.And(ctx.ge(nu, 0.2), ctx.le(nu, 30.0)))
+        kw["nu"] = nu
+    elif cls == "Integral":
+        nu = ctx.real("nu", lo=0.3, hi=49.5)
+        ctx.require(ctx.And(ctx.gt(nu, 0.0), ctx.le(nu, 50.0)))
+        kw["nu"] = nu
+    elif cls == "JBessel":
+        nu = ctx.real("nu", lo=dim / 2.0 - 1 + 0.05, hi=dim / 2.0 + 3.0)
+        ctx.require(ctx.And(ctx.ge(nu, dim / 2.0 - 1), ctx.le(nu, 50.0)))
+        kw["nu"] = nu
+    mod = _q(getattr(gs, cls), dim=dim, len_scale=l, rescale=s, **kw)
+    L = l / s
+    if k == "zero":
+        kv = 0.0
+    else:
+        kv = ctx.real("k", lo=0.05, hi=3.0)
+        ctx.require(ctx.gt(kv, 1e-6))
+        if cls == "JBessel":            # inside the support, away from its edge
+            ctx.require(ctx.lt(kv * L, 0.999))
+    karr = np.array([kv], dtype=object) if ctx.mode == "sym" else np.array([float(kv)])
+    with np.errstate(all="ignore"):
+        got = mod.spectral_density(karr)
+    ctx.ensure("shape", ctx.shape_eq(got, (1,)))
+    got = got[0]
+    sqpi = m.sqrt(m.pi)
+    d = dim
+    if cls == "Gaussian":
+        want = (L / 2.0 / sqpi) ** d * m.exp(-((kv * L / 2.0) ** 2))
+    elif cls == "Exponential":
+        want = L ** d * _G(ctx, (d + 1) / 2.0) / (m.pi * (1.0 + (kv * L) ** 2)) ** ((d + 1) / 2.0)
+    elif cls == "Matern":
+        x = (kv * L) ** 2
+        exact = (L / sqpi) ** d * m.exp(-(nu + d / 2.0) * m.log(1.0 + x / nu) + m.fn("loggamma", nu + d / 2.0)
+                                        - m.fn("loggamma", nu) - d * m.log(m.sqrt(nu)))
+        approx = (L / sqpi) ** d * m.exp(-x) * (1 + 0.5 * x ** 2 / nu) * m.sqrt(1 + x / nu) ** (-d)
+        want = m.ite(ctx.gt(nu, 20.0), approx, exact) if ctx.mode == "sym" else (approx if float(nu) > 20.0 else exact)
+    elif cls == "Integral":
+        fac = (0.5 * L / sqpi) ** d
+        lim = fac * nu / (nu + d)
+        x = (kv * L / 2) ** 2
+        approx = lim * m.exp(-x) * (1 + 2 * x / (nu + d + 2))
+        if k == "zero":
+            exact = lim
+        else:
+            sh = (nu + d) / 2
+            exact = 0.5 * nu * fac / m.pow(x, sh) * m.fn("inc_gamma_low", sh, x)
+        want = m.ite(ctx.gt(nu, 50.0), approx, exact) if ctx.mode == "sym" else (approx if float(nu) > 50.0 else exact)
+    elif cls == "HyperSpherical":
+        if k == "zero":
+            want = (L / 4) ** d / _G(ctx, d / 2 + 1) / sqpi ** d
+        else:
+            j = m.fn("jv", d / 2, kv * L / 2)
+            want = _G(ctx, d / 2 + 1) / sqpi ** d * j ** 2 / kv ** d
+    else:
+        want = ((L / sqpi) ** d * m.fn("gamma", nu + 1.0) / m.min(m.fn("gamma", nu - d / 2 + 1), 100.0)
+                * m.pow(1.0 - (kv * L) ** 2, nu - d / 2))
+    ctx.ensure("density=tabulated-transform", ctx.eq(got, want))
+
+
+# --- numerical default path: the Hankel transform is set up in the package's Fourier convention -------------
+HK_HIST = ["ctor-default", "ctor-partial", "ctor-convention-override", "setter-partial", "setter-none-after-partial",
+           "dim-change-after-partial", "setter-twice"]
+
+
+@contract(P, "CovModel.hankel_kw/transform-convention-kept-unless-overridden", params={"hist": HK_HIST, "dim": [1, 2, 3]},
+          functions=["covmodel/base.py:CovModel.hankel_kw", "covmodel/base.py:CovModel.spectral_density",
+                     "covmodel/base.py:CovModel.__init__", "covmodel/tools.py:set_dim"])
+def hankel_convention(ctx, hist, dim):
+    """S(k) = (2 pi)^-d int rho exp(-i k.r) d^d r is hankel's SymmetricFourierTransform with a = -1, b = 1
+    (documented defaults {"a": -1, "b": 1, "N": 200, "h": 0.001, "alt": True}); `hankel_kw` 'modifies' these
+    defaults: keys the user does not give keep their default, whatever the call history"""
+    import gstools.covmodel.base as cb
+    default = {"a": -1, "b": 1, "N": 200, "h": 0.001, "alt": True}
+    ctx.ensure("documented-defaults", dict(cb.HANKEL_DEFAULT) == default)
+    built = []
+
+    class GhostSFT:
+        def __init__(self, ndim=2, **kw):
+            self.ndim, self.kw = ndim, dict(kw)
+            self.calls = []
+            built.append(self)
+
+        def transform(self, f, k, ret_err=True, **kw):
+            self.calls.append((f, k, ret_err, kw))
+            return ("transform-of", id(f)) if False else np.asarray(k, dtype=object if ctx.mode == "sym" else float) * 0 + 1
+
+    l = ctx.real("len", lo=0.5, hi=2.0)
+    ctx.require(ctx.gt(l, 0))
+    real, real_t = cb.SFT, ctools.SFT
+    cb.SFT = ctools.SFT = GhostSFT
+    try:
+        user, mod = {}, None
+        if hist == "ctor-default":
+            mod = _q(gs.Stable, dim=dim, len_scale=l)
+        elif hist == "ctor-partial":
+            user = {"N": 300}
+            mod = _q(gs.Stable, dim=dim, len_scale=l, hankel_kw={"N": 300})
+        elif hist == "ctor-convention-override":
+            user = {"a": 0, "b": 2}
+            mod = _q(gs.Stable, dim=dim, len_scale=l, hankel_kw={"a": 0, "b": 2})
+        elif hist == "setter-partial":
+            user = {"h": 0.01}
+            mod = _q(gs.Stable, dim=dim, len_scale=l)
+            mod.hankel_kw = {"h": 0.01}
+        elif hist == "setter-none-after-partial":
+            mod = _q(gs.Stable, dim=dim, len_scale=l, hankel_kw={"N": 300, "a": 0})
+            mod.hankel_kw = None
+        elif hist == "dim-change-after-partial":
+            user = {"N": 300}
+            mod = _q(gs.Stable, dim=dim, len_scale=l, hankel_kw={"N": 300})
+            mod.dim = dim % 3 + 1
+        else:
+            user = {"N": 300, "h": 0.01}
+            mod = _q(gs.Stable, dim=dim, len_scale=l, hankel_kw={"N": 300})
+            mod.hankel_kw = {"h": 0.01}
+        want = dict(default, **user)
+        ctx.ensure("hankel_kw=defaults-updated-with-the-user's-keys", dict(mod.hankel_kw) == want)
+        ctx.ensure("transform-object=SFT(ndim=dim,**hankel_kw)",
+                   isinstance(mod._sft, GhostSFT) and mod._sft is built[-1] and mod._sft.ndim == mod.dim
+                   and mod._sft.kw == want)
+        ctx.ensure("module-defaults-not-modified", dict(cb.HANKEL_DEFAULT) == default)
+        k = ctx.real("k", lo=-2.0, hi=2.0)
+        out = mod.spectral_density(np.array([k], dtype=object) if ctx.mode == "sym" else np.array([float(k)]))
+        c = mod._sft.calls
+        ctx.ensure("density=transform(correlation,|k|)",
+                   len(c) == 1 and c[0][0] == mod.correlation and c[0][2] is False and not c[0][3]
+                   and ctx.And(ctx.shape_eq(c[0][1], (1,)), ctx.eq(c[0][1][0], ctx.m.abs(k))))
+    finally:
+        cb.SFT, ctools.SFT = real, real_t
